@@ -551,13 +551,6 @@ Proof.
     + exact C.
 Qed.
 
-Lemma heap_ok_b_spec' s hp :
-  heap_ok_b s hp = true <->
-  length (queues hp) = NBINS /\
-  (forall i, i <= MI_BIN_FULL -> queue_ok_b s (h_id hp) i (qget (queues hp) i) = true) /\
-  page_count hp = N.of_nat (length (heap_pages hp)).
-Proof. apply heap_ok_b_spec. Qed.
-
 Definition page_ok (s : state) (p : pid) (pi : pinfo) : Prop :=
   pbin pi < MI_BIN_FULL /\ pcapb pi <= psize pi /\
   (forall b, In b (blocks pi) -> pstart pi <= b < pstart pi + pcapb pi) /\
